@@ -642,14 +642,16 @@ fn run_task(sc: &Scenario, env: &Env, stats: &mut RunStats) -> Result<Option<Vio
         stored_now.push((name.to_string(), bytes, lid));
     }
     engine.settle(30);
-    if let (Some((late_ms, _)), true) = (sc.late, cancelled) {
-        // a late writer the cancellation did not reach still has its bytes to write: nothing of it
-        // may show up after the terminal frame, so look again once its time has passed
+    if let Some((late_ms, _)) = sc.late {
+        // a late writer (one the cancellation did not reach, or one the task did not wait for) still
+        // has its bytes to write: nothing of it may show up after the terminal frame, so look again
+        // once its time has passed (no wait at all when the terminal frame came after the writer)
+        let _ = cancelled;
         let until = late_ms + 250;
         while (t0.elapsed().as_millis() as u64) < until {
             engine.settle(10);
         }
-        stats.bump("cancelled_tasks_watched_past_their_late_writer", 1);
+        stats.bump(if cancelled { "cancelled_tasks_watched_past_their_late_writer" } else { "tasks_watched_past_their_late_writer" }, 1);
     }
     let truth = crate::model::parse_truth_file(&log_path).map_err(|e| e.reason)?;
     let frames = truth.stream("task", &id);
